@@ -14,6 +14,7 @@ import MosnVerif.Drive.C08H1
 import MosnVerif.Drive.C08Set
 import MosnVerif.Drive.C08Trail
 import MosnVerif.Model.NeedMoreLive
+import MosnVerif.Drive.C08Chk
 /-! driver of C08 (malformed input contained): see `run` for the case kinds. Core Lean only. -/
 namespace MosnVerif.Drive.C08
 open MosnVerif.Drive MosnVerif.Model.Framing MosnVerif.Model.FrameBytes MosnVerif.Model.FrameChk MosnVerif.Model.KVBlock
@@ -289,6 +290,8 @@ def run (caseToks impl : List String) : String :=
   | ["h2up", method, frames] => h2up method frames impl
   | ["h2trail", side, toks] => MosnVerif.Drive.C08Trail.h2trail side toks impl
   | ["h2set", setting, hdr, body] => MosnVerif.Drive.C08Set.h2set setting hdr body impl
+  | ["mat", name, bytes] => MosnVerif.Drive.C08Chk.mat name bytes impl
+  | ["h2pay", ty, flags, sid, payload] => MosnVerif.Drive.C08Chk.h2pay ty flags sid payload impl
   | ["disp", proto, bytes] => disp proto bytes impl
   | ["pool", api, st] => pool api st impl
   | ["dmeta", listener, kinds, nargs, _] => MosnVerif.Drive.C08Dubbo.dmeta listener kinds nargs impl
